@@ -429,6 +429,116 @@ def wrappers_forward_options(S, rep, rule="C10.w", family_root="VirtualBoundaryF
         raise Unsupported("expected at least %d constructor chains below %s, found %d" % (min_found, family_root, found))
 
 
+VIEW_METHODS = {"view", "reshape", "ravel", "squeeze", "transpose", "swapaxes"}
+VIEW_FUNCS = {"asarray", "ascontiguousarray", "asanyarray", "atleast_1d", "atleast_2d", "reshape", "ravel", "squeeze", "transpose"}
+INPLACE_METHODS = {"fill", "sort", "put", "itemset", "resize", "partition", "setfield"}
+KNOWN_INPLACE = {"_elements_to_nodes_inplace": (1,), "copyto": (0,), "put": (0,), "place": (0,), "putmask": (0,), "fill_diagonal": (0,)}
+
+
+def _root(e):
+    """the name an lvalue / view expression is rooted in: x, x[...], x.T, x.view(), np.asarray(x) ..."""
+    while True:
+        if isinstance(e, ast.Name):
+            return e.id
+        if isinstance(e, ast.Subscript):
+            e = e.value
+        elif isinstance(e, ast.Attribute) and e.attr in ("T", "real", "imag", "flat"):
+            e = e.value
+        elif isinstance(e, ast.Call) and isinstance(e.func, ast.Attribute) and e.func.attr in VIEW_METHODS and not isinstance(e.func.value, ast.Name):
+            e = e.func.value
+        elif isinstance(e, ast.Call) and isinstance(e.func, ast.Attribute) and e.func.attr in VIEW_METHODS and isinstance(e.func.value, ast.Name) \
+                and e.func.value.id not in ("np", "numpy"):
+            e = e.func.value
+        elif isinstance(e, ast.Call) and isinstance(e.func, ast.Attribute) and e.func.attr in VIEW_FUNCS and e.args:
+            e = e.args[0]
+        else:
+            return None
+
+
+def param_stores(fn, pname, module_funcs, depth=0):
+    """statements of fn that (may) store into the array bound to parameter pname, following local aliases (views) in
+    statement order and calls into functions of the same module; returns [(lineno, text)]"""
+    aliases = {pname}
+    hits = []
+
+    def visit(stmts):
+        for st in stmts:
+            if isinstance(st, (ast.For, ast.While)):
+                visit(st.body); visit(st.orelse); visit(st.body)      # twice: aliases made late in the body reach its start
+                continue
+            if isinstance(st, ast.If):
+                visit(st.body); visit(st.orelse)
+                continue
+            if isinstance(st, ast.With):
+                visit(st.body)
+                continue
+            if isinstance(st, ast.Try):
+                visit(st.body); [visit(h.body) for h in st.handlers]; visit(st.orelse); visit(st.finalbody)
+                continue
+            # calls anywhere in the statement
+            for c in [n for n in ast.walk(st) if isinstance(n, ast.Call)]:
+                for kw in c.keywords:
+                    if kw.arg == "out" and any(_root(x) in aliases for x in (kw.value.elts if isinstance(kw.value, ast.Tuple) else [kw.value])):
+                        hits.append((st.lineno, ast.unparse(st)[:100]))
+                name = c.func.attr if isinstance(c.func, ast.Attribute) else (c.func.id if isinstance(c.func, ast.Name) else None)
+                if isinstance(c.func, ast.Attribute) and c.func.attr in INPLACE_METHODS and _root(c.func.value) in aliases:
+                    hits.append((st.lineno, ast.unparse(st)[:100]))
+                for pos in KNOWN_INPLACE.get(name, ()):
+                    if pos < len(c.args) and _root(c.args[pos]) in aliases:
+                        hits.append((st.lineno, ast.unparse(st)[:100]))
+                callee = module_funcs.get(name) if isinstance(c.func, ast.Name) else None
+                if callee is not None and depth < 3:
+                    params = [a.arg for a in callee.args.posonlyargs + callee.args.args]
+                    bound = list(zip(params, c.args)) + [(k.arg, k.value) for k in c.keywords if k.arg in params]
+                    for q, a in bound:
+                        if _root(a) in aliases and param_stores(callee, q, module_funcs, depth + 1):
+                            hits.append((st.lineno, ast.unparse(st)[:100] + "  [%s stores into its parameter %s]" % (name, q)))
+            if isinstance(st, ast.AugAssign):
+                if _root(st.target) in aliases:
+                    hits.append((st.lineno, ast.unparse(st)[:100]))
+                continue
+            if isinstance(st, (ast.Assign, ast.AnnAssign)):
+                targets = st.targets if isinstance(st, ast.Assign) else [st.target]
+                value = st.value
+                for t in targets:
+                    for tt in (t.elts if isinstance(t, (ast.Tuple, ast.List)) else [t]):
+                        if isinstance(tt, ast.Name):
+                            if value is not None and not isinstance(t, (ast.Tuple, ast.List)) and _root(value) in aliases:
+                                aliases.add(tt.id)
+                            else:
+                                aliases.discard(tt.id)          # rebound to something else
+                        elif _root(tt) in aliases:
+                            hits.append((st.lineno, ast.unparse(st)[:100]))
+    visit(fn.body)
+    return sorted(set(hits))
+
+
+def marker_force_read_only(S, rep):
+    """"evaluate body forces" is one of the operations of the property's histories: the transfer to the body takes the marker
+    force as an argument (the interaction's own lag_grid_forcing_field) and must leave it as it is"""
+    idx = class_index(S.repo)
+    found = 0
+    for name in sorted(idx):
+        cls, rel = idx[name]
+        for fn in [n for n in cls.body if isinstance(n, ast.FunctionDef) and n.name == "transfer_forcing_from_grid_to_body"]:
+            params = [a.arg for a in fn.args.posonlyargs + fn.args.args]
+            if len(params) < 4:
+                continue
+            if len(fn.body) == 1 and isinstance(fn.body[0], (ast.Pass, ast.Raise)) or (fn.body and all(isinstance(b, ast.Expr) and isinstance(b.value, ast.Constant) for b in fn.body)):
+                continue                      # abstract declaration
+            pname = params[3]
+            tree = ast.parse(open(os.path.join(S.repo, rel)).read())
+            module_funcs = {n.name: n for n in tree.body if isinstance(n, ast.FunctionDef)}
+            hits = param_stores(fn, pname, module_funcs)
+            found += 1
+            rep.ob("C10.g", "%s.transfer_forcing_from_grid_to_body reads the marker force only" % name, not hits,
+                   "the marker force argument %s is modified in place (line %d: %s); the caller passes the interaction's own marker force, "
+                   "which is then no longer k*integral + c*mismatch" % (pname, hits[0][0], hits[0][1]) if hits else
+                   "no store into %s or a view of it" % pname,
+                   key="C10.g|%s|%s" % (name, hits[0][1] if hits else ""))
+    rep.note("forcing_grid_transfers", found)
+
+
 def spacing_from_current_state(S, rep):
     """(d) the coefficients are scaled by the maximum spacing of the markers as they are: a grid that reports the spacing of
     the body's reference configuration (`rest_lengths`, `rest_*`) scales every force wrongly once the body is pre-strained"""
@@ -468,6 +578,8 @@ def run(S, tier, rep):
                 # the forwarding violation above is the finding)
     who_may_write(S, rep)
     spacing_from_current_state(S, rep)
+    marker_force_read_only(S, rep)
+    rep.require_min("C10.g", 6)
     # the interpolated flow velocity is taken at the markers: an explicit coordinate shift of the Eulerian grid must reach the
     # communicator unchanged (decided with C06's rule on the forcing class)
     from ..report import Report as _R
